@@ -26,6 +26,7 @@ case "$1" in
     ;;
   replay)
     build
+    if grep -q '"kind": "race"' "$2" 2>/dev/null; then build_race; fi
     exec ./bin/icesim replay "$2"
     ;;
   C*)
